@@ -97,7 +97,8 @@ class LessLexer:
          '|\\\[0-9a-f]{1,6}'
          '|\\\[^\s\r\n0-9a-f])*)'
          '|\.')
-        v = t.value.strip()
+        # (a no-break space is a name character here, not a blank to strip)
+        v = t.value.strip() or t.value
         c = v[0]
         if c == '.':
             # In some cases, only the '.' can be marked as CSS class.
